@@ -643,8 +643,68 @@ def _r8_symbols_consumed(repo, rep):
             return False
         return sym[0].islower()      # value tokens; keywords are upper case
 
-    def compat(lens, n1):
-        for op, v, q in lens:
+    kind_memo = {}
+
+    def kind(sym, depth=0):
+        """'list' / 'str' / None: python type of the symbol's semantic
+        value, as far as the actions make it evident"""
+        if sym in kind_memo:
+            return kind_memo[sym]
+        if sym.startswith("'"):
+            return 'str'
+        if sym not in by_lhs:
+            return 'str'                    # token text
+        if depth > 6:
+            return None
+        kind_memo[sym] = None               # recursion guard
+        kinds = set()
+        for n_, (lhs_, alts_, f_) in prods.items():
+            if lhs_ != sym:
+                continue
+            for a in walk_no_nested(f_.node):
+                if not (isinstance(a, ast.Assign) and
+                        norm(a.targets[0]) == 'p[0]'):
+                    continue
+                v = a.value
+                if isinstance(v, (ast.List, ast.ListComp)) or (
+                        isinstance(v, ast.BinOp) and
+                        isinstance(v.op, ast.Add) and
+                        any(isinstance(x, ast.List)
+                            for x in (v.left, v.right))):
+                    kinds.add('list')
+                elif isinstance(v, ast.Subscript) and \
+                        norm(v.value) == 'p' and \
+                        isinstance(v.slice, ast.Constant):
+                    k_ = v.slice.value
+                    sub = {kind(alt_[k_ - 1], depth + 1) for alt_ in alts_
+                           if 0 < k_ <= len(alt_)}
+                    kinds |= sub
+                elif isinstance(v, ast.Constant) and \
+                        isinstance(v.value, str):
+                    kinds.add('str')
+                elif isinstance(v, ast.Call) and \
+                        isinstance(v.func, ast.Attribute) and \
+                        v.func.attr in ('lower', 'upper', 'strip', 'join'):
+                    kinds.add('str')
+                else:
+                    kinds.add(None)
+        res = kinds.pop() if len(kinds) == 1 else None
+        kind_memo[sym] = res
+        return res
+
+    def compat(lens, n1, alt=None):
+        for item in lens:
+            if item[0] == 'isinstance':
+                _x, j, tname, q = item
+                if alt is None or not 0 < j <= len(alt):
+                    continue
+                k_ = kind(alt[j - 1])
+                if k_ is None or tname not in ('list', 'str'):
+                    continue
+                if (k_ == tname) != q:
+                    return False
+                continue
+            op, v, q = item
             r = {'==': n1 == v, '!=': n1 != v, '>': n1 > v, '>=': n1 >= v,
                  '<': n1 < v, '<=': n1 <= v}[op]
             if r != q:
@@ -670,6 +730,11 @@ def _r8_symbols_consumed(repo, rep):
                                       norm(a))
                     if m:
                         lens.add((m.group(1), int(m.group(2)), q))
+                    m2 = _re.fullmatch(r'isinstance\(p\[(\d+)\], (\w+)\)',
+                                       norm(a))
+                    if m2:
+                        lens.add(('isinstance', int(m2.group(1)),
+                                  m2.group(2), q))
             for e in exprs:
                 for x in ast.walk(e):
                     if isinstance(x, ast.Subscript) and \
@@ -693,7 +758,8 @@ def _r8_symbols_consumed(repo, rep):
                 if not carries(sym):
                     continue
                 r8.sites += 1
-                ok = generic or any(compat(l, n1) for l in reads.get(k, []))
+                ok = generic or any(compat(l, n1, alt)
+                                    for l in reads.get(k, []))
                 r8.ob(ok, '%s|%s|%d' % (n, ' '.join(alt), k))
                 if not ok:
                     rep.finding(r8, n, '%s : %s' % (lhs, ' '.join(alt)),
